@@ -8,8 +8,13 @@
   S = `Mpt.Refs` (MptModel/Spec/Refs.lean): no counters, the reference total is derived from the handles.
 
   All theorems are for ALL states satisfying the invariant, all objects/handles (any number), all histories.
+  The history machine (`Op`, `St.valid`, `St.exec`, `step`, `run`) is part of M (Impl/Refcount.lean) and is what the
+  driver part `r` executes; `Refs.alts` is what it prints as the S column.  `refines`/`run_refines` prove that
+  M's outcome is one of S's for every operation of `Op` and every history.  Not proved against S: the C++ handle
+  part (`XOp`, `Refs.xassign/xmove/settle`), `unique_array`, reply contexts, notifier, `output_local` — there the
+  invariant theorems hold for M and S is compared by the correspondence run only.
 -/
-import MptModel.Lemmas.Refcount
+import MptModel.Lemmas.RefcountRefine
 
 namespace Mpt.C15
 open Mpt Mpt.Refcount
@@ -53,35 +58,6 @@ example : raise MAXV = (MAXV, 0) ∧ raise 0 = (0, 0) ∧ raise (MAXV - 1) = (MA
 
 /-! ### exact: count = number of references, over all histories -/
 
-/-- operations of a history (any mix of pointer handles and array handles) -/
-inductive Op where
-  | take (h o : Nat)                          -- empty handle := reference to object o
-  | copy (h g : Nat)                          -- empty handle := copy of handle g
-  | drop (h : Nat)
-  | assignMeta (h : Nat) (src : Option Nat)   -- through `_mpt_metatype_wrap`
-  | assignArr (h : Nat) (src : Option Nat)    -- through `mpt_array_clone`
-  | extAdd (o : Nat)                          -- external reference taken
-  | extUnref (o : Nat)                        -- external reference given back (only if one is held)
-  | detach (h len : Nat)                      -- private copy of the heap buffer behind handle h (`buffer::detach`)
-  | reserve (h len : Nat)                     -- `mpt_array_reserve`: private buffer for len elements
-  deriving Repr
-
-/-- one operation; requests the drivers reject (`bad-op`) leave the state as it is -/
-def step (s : St) : Op → St
-  | .take h o => if h < s.hnd.length ∧ s.hnd.getD h none = none then (s.take h o).1 else s
-  | .copy h g => if h < s.hnd.length ∧ s.hnd.getD h none = none then (s.copy h g).1 else s
-  | .drop h => if h < s.hnd.length then s.drop h else s
-  | .assignMeta h src => if h < s.hnd.length then (s.assignMeta h src).1 else s
-  | .assignArr h src => if h < s.hnd.length then (s.assignArr h src).1 else s
-  | .extAdd o => (s.extAdd o).1
-  | .extUnref o => if 1 ≤ (s.obj o).ext then s.extUnref o else s
-  | .detach h len => if h < s.hnd.length then (s.detach h len).1 else s
-  | .reserve h len => if h < s.hnd.length then (s.reserve h len).1 else s
-
-def run (s : St) : List Op → St
-  | [] => s
-  | op :: ops => run (step s op) ops
-
 /-- the invariant holds when objects are created: counter = preset = external references, no handles -/
 theorem inv_init (objs : List RObj) (h : ∀ o ∈ objs, o.count = o.ext ∧ o.count ≤ MAXV ∧ (o.alive = false → o.count = 0))
     (n : Nat) : Inv { objs := objs, hnd := List.replicate n none } := by
@@ -102,24 +78,22 @@ theorem inv_init (objs : List RObj) (h : ∀ o ∈ objs, o.count = o.ext ∧ o.c
     exact ⟨by decide, by decide, fun _ => by decide⟩
 
 theorem step_inv (s : St) (op : Op) (hI : Inv s) : Inv (step s op) := by
-  cases op <;> simp only [step]
-  case take h o => split; next hc => exact take_inv s h o hI hc.1 hc.2
-                   next => exact hI
-  case copy h g => split; next hc => exact copy_inv s h g hI hc.1 hc.2
-                   next => exact hI
-  case drop h => split; next hc => exact drop_inv s h hI hc
-                 next => exact hI
-  case assignMeta h src => split; next hc => exact assignMeta_inv s h src hI hc
-                           next => exact hI
-  case assignArr h src => split; next hc => exact assignArr_inv s h src hI hc
-                          next => exact hI
-  case extAdd o => exact extAdd_inv s o hI
-  case extUnref o => split; next hc => exact extUnref_inv s o hI hc
-                     next => exact hI
-  case detach h len => split; next hc => exact detach_inv s h len hI hc
-                       next => exact hI
-  case reserve h len => split; next hc => exact reserve_inv s h len hI hc
-                        next => exact hI
+  unfold step St.exec
+  cases hv : s.valid op with
+  | false => exact hI
+  | true =>
+    simp only [Bool.not_true, Bool.false_eq_true, ↓reduceIte]
+    cases op <;> simp only [St.valid, decide_eq_true_eq] at hv <;> simp only []
+    case create k n els => exact create_inv s _ _ hI ⟨rfl, hv, rfl⟩
+    case take h o => exact take_inv s h o hI hv.1 hv.2.1
+    case copy h g => exact copy_inv s h g hI hv.1 hv.2.1
+    case drop h => exact drop_inv s h hI hv
+    case assignMeta h src => exact assignMeta_inv s h src hI hv.1
+    case assignArr h src => exact assignArr_inv s h src hI hv.1
+    case extAdd o => exact extAdd_inv s o hI
+    case extUnref o => exact extUnref_inv s o hI hv
+    case detach h len => exact detach_inv s h len hI hv
+    case reserve h len => exact reserve_inv s h len hI hv
 
 /-- **exact** — for every history of take/copy/drop/assign (both forms)/external addref and unref/detach from a state
     where it holds, after every operation and for every object: the counter equals the number of references
@@ -161,6 +135,70 @@ theorem destroy_at_last (s : St) (o : Nat) (hc : (s.obj o).count ≤ MAXV) (ha :
     constructor
     · intro h; simp at h; omega
     · intro h; simp; omega
+
+/-- **never later, over histories**: an object that had a reference (a positive counter) and has none left after
+    any history (counter 0 — by `exact_count`: no external reference and no handle) IS destroyed, and a destroyed
+    object stays destroyed.  Every operation of `Op`, accepted or not, any start state. -/
+theorem never_later (ops : List Op) (s : St) (o : Nat) (ho : o < s.objs.length) :
+    ((s.obj o).alive = false → ((run s ops).obj o).alive = false) ∧
+    (0 < (s.obj o).count → ((run s ops).obj o).count = 0 → ((run s ops).obj o).alive = false) :=
+  (run_mono ops s).2 o ho
+
+/-- the two directions together: after any history an object that was referenced at the start is alive IF AND ONLY
+    IF a reference to it is left (external or a handle) -/
+theorem alive_iff_referenced (ops : List Op) (s : St) (hI : Inv s) (o : Nat) (ho : o < s.objs.length)
+    (hp : 0 < (s.obj o).count) :
+    ((run s ops).obj o).alive = true ↔ 0 < ((run s ops).obj o).ext + hrefs (run s ops).hnd o := by
+  have hc := (exact_count ops s hI o).1
+  have hi := (exact ops s hI) o
+  constructor
+  · intro ha
+    rcases Nat.eq_zero_or_pos (((run s ops).obj o).ext + hrefs (run s ops).hnd o) with hz | hz
+    · have := (never_later ops s o ho).2 hp (by omega)
+      rw [ha] at this; cases this
+    · exact hz
+  · intro hr
+    cases ha : ((run s ops).obj o).alive with
+    | true => rfl
+    | false => have := hi.2.2 ha; omega
+
+-- hypotheses satisfiable: o0 of `exTwo` is referenced, the history drops everything: destroyed at that point
+example : let s := run exTwo [.take 0 0, .extUnref 0, .drop 0]
+    0 < (exTwo.obj 0).count ∧ (s.obj 0).count = 0 ∧ (s.obj 0).alive = false := by decide
+
+/-! ### M refines S: the outcome of the model is one of the outcomes the spec allows -/
+
+/-- **one operation**: for every state satisfying the invariant and every request the drivers accept, the result of
+    M (`St.exec`: state and accepted/refused) is — after forgetting the counters (`abs`) — one of the alternatives
+    `Refs.alts` lists for the S state `abs s`.  S has no counters: it derives the reference totals from the handles
+    and destroys at total 0. -/
+theorem refines (s : St) (op : Op) (hI : Inv s) (hv : s.valid op = true) :
+    ∃ a ∈ Refs.alts (abs s) op, a.ok = (s.exec op).2 ∧ a.st = abs (s.exec op).1 := by
+  unfold St.exec
+  simp only [hv, Bool.not_true, Bool.false_eq_true, ↓reduceIte]
+  cases op <;> simp only [St.valid, decide_eq_true_eq] at hv <;> unfold Refs.alts <;> simp only []
+  case create k n els =>
+    exact ⟨_, List.mem_singleton.mpr rfl, rfl, (create_refines s k n els _ _).symm⟩
+  case take h o => exact take_refines s h o hI hv.2.2
+  case copy h g => exact copy_refines s h g hI
+  case drop h => exact drop_refines s h hI hv
+  case assignMeta h src => exact assignMeta_refines s h src hI hv.1 hv.2
+  case assignArr h src => exact assignArr_refines s h src hI hv.1 hv.2
+  case extAdd o => exact extAdd_refines s o hI hv
+  case extUnref o => exact extUnref_refines s o hI hv
+  case detach h len => exact detach_refines s h len hI
+  case reserve h len => exact reserve_refines s h len hI
+
+/-- **every history**: after any history from a state satisfying the invariant, the next operation's result is
+    again one of S's alternatives for the abstracted state — M ⊑ S along the whole run -/
+theorem run_refines (ops : List Op) (s : St) (hI : Inv s) (op : Op) (hv : (run s ops).valid op = true) :
+    ∃ a ∈ Refs.alts (abs (run s ops)) op, a.ok = ((run s ops).exec op).2 ∧ a.st = abs ((run s ops).exec op).1 :=
+  refines (run s ops) op (exact ops s hI) hv
+
+-- non-vacuous: the drop of the last handle is accepted and S's only alternative has the object dead
+example : let s := run exTwo [.take 0 0, .extUnref 0]
+    s.valid (.drop 0) = true ∧ (Refs.alts (abs s) (.drop 0)).map (fun a => (a.ok, (a.st.objs.getD 0 default).dead)) = [(true, true)] := by
+  decide
 
 -- two objects, three handles: o0 is shared by two handles, dropped twice, destroyed at the second drop
 example : let s := run exTwo [.take 0 0, .copy 1 0, .extUnref 0, .drop 0]
@@ -221,15 +259,18 @@ theorem assign_balanced (s : St) (h : Nat) (src : Option Nat) (hI : Inv s) (hh :
     rw [hext x, hhnd] at c1
     omega
 
-/-- the same for `mpt_array_clone` (array handles): accepted with a changed handle ⇒ balanced; refused ⇒ nothing
-    changes -/
+/-- the same for `mpt_array_clone` (array handles): accepted ⇒ the handle names the new referent (for the same referent
+    nothing happens), the new referent has one reference more, the replaced one one less; refused (different content
+    types, or the new referent cannot be retained) ⇒ the handles and every counter are what they were -/
 theorem assign_balanced_array (s : St) (h : Nat) (src : Option Nat) (hI : Inv s) (hh : h < s.hnd.length) :
-    (s.assignArr h src).1.hnd = s.hnd.set h src ∨ (s.assignArr h src).1.hnd = s.hnd →
-    ∀ x, (((s.assignArr h src).1.obj x).count : Int) =
-      (s.obj x).count + hrefs (s.assignArr h src).1.hnd x - hrefs s.hnd x := by
-  intro _ x
+    ((s.assignArr h src).2.isOk = true →
+        (s.assignArr h src).1.hnd = s.hnd.set h src ∧
+        ∀ x, (((s.assignArr h src).1.obj x).count : Int) = (s.obj x).count + ind src x - ind (s.hnd.getD h none) x) ∧
+    ((s.assignArr h src).2.isOk = false →
+        (s.assignArr h src).1.hnd = s.hnd ∧ ∀ x, ((s.assignArr h src).1.obj x).count = (s.obj x).count) := by
   have hI' := assignArr_inv s h src hI hh
-  have hext : ((s.assignArr h src).1.obj x).ext = (s.obj x).ext := by
+  have hext : ∀ x, ((s.assignArr h src).1.obj x).ext = (s.obj x).ext := by
+    intro x
     unfold St.assignArr; split
     · rfl
     · split
@@ -237,10 +278,92 @@ theorem assign_balanced_array (s : St) (h : Nat) (src : Option Nat) (hI : Inv s)
       · split
         · exact retain_ext s src x
         · rw [release_ext]; exact retain_ext s src x
-  have c1 := count_of_inv _ hI' x
-  have c0 := count_of_inv _ hI x
-  rw [hext] at c1
-  omega
+  have hhnd : (s.assignArr h src).1.hnd = if (s.assignArr h src).2.isOk = true then s.hnd.set h src else s.hnd := by
+    rw [assignArr_eq]
+    split
+    · rename_i e; simp only [RRet.isOk, ↓reduceIte]; rw [e, set_getD_self]
+    · split
+      · simp [RRet.isOk]
+      · split
+        · simp [RRet.isOk, retain_hnd]
+        · simp [RRet.isOk, assignCore]
+  constructor
+  · intro hok
+    rw [hok] at hhnd
+    simp only [↓reduceIte] at hhnd
+    refine ⟨hhnd, fun x => ?_⟩
+    have c1 := count_of_inv _ hI' x
+    have c0 := count_of_inv _ hI x
+    rw [hext x, hhnd] at c1
+    have hs := hrefs_set s.hnd h src x hh
+    simp only [ind]
+    by_cases e1 : s.hnd.getD h none = some x <;> by_cases e2 : src = some x <;>
+      simp only [e1, e2, ↓reduceIte] at hs c1 ⊢ <;> omega
+  · intro hno
+    rw [hno] at hhnd
+    simp only [Bool.false_eq_true, ↓reduceIte] at hhnd
+    refine ⟨hhnd, fun x => ?_⟩
+    have c1 := count_of_inv _ hI' x
+    have c0 := count_of_inv _ hI x
+    rw [hext x, hhnd] at c1
+    omega
+
+/-- **once … once, as call counts** (`_mpt_metatype_wrap` replacing the referent `o` of handle `h` by another
+    object `n`, event counters cleared before): on success the new referent's `addref` was called exactly once and
+    nothing else on it, the old referent's `unref` exactly once (and it was destroyed iff that was its last
+    reference), no other object was touched -/
+theorem assign_calls (s : St) (h n o : Nat) (hI : Inv s) (hev : s.ev = s.objs.map (fun _ => {}))
+    (hold : s.hnd.getD h none = some o) (hno : n ≠ o)
+    (hok : (s.assignMeta h (some n)).2 = .ok 8) :
+    (s.assignMeta h (some n)).1.evOf n = { add := 1 } ∧
+    (s.assignMeta h (some n)).1.evOf o = { unref := 1, destroyed := decide ((s.obj o).count = 1) } ∧
+    ∀ x, x ≠ n → x ≠ o → (s.assignMeta h (some n)).1.evOf x = {} := by
+  have hclean : ∀ x, s.evOf x = {} := by
+    intro x; unfold St.evOf; rw [hev]
+    simp only [List.getD_eq_getElem?_getD, List.getElem?_map]
+    cases s.objs[x]? <;> rfl
+  have hevl : s.ev.length = s.objs.length := by rw [hev]; simp
+  rw [assignMeta_eq] at hok ⊢
+  cases hr : (s.retain (some n)).2 with
+  | false => simp [hr] at hok
+  | true =>
+    simp only [hr, Bool.not_true, Bool.false_eq_true, ↓reduceIte]
+    have hadd : (s.addref n).2 ≠ 0 := by simpa [St.retain] using hr
+    have han : (s.obj n).alive = true := by
+      rw [addref_ret] at hadd
+      cases ha : (s.obj n).alive with
+      | true => rfl
+      | false => simp [ha] at hadd
+    have hnl := obj_alive_lt s n han
+    have hoa := inv_referenced_alive s hI h o hold
+    have hol := obj_alive_lt s o hoa
+    have e0 : (s.addref n).1.obj o = s.obj o := by
+      rw [addref_obj]; split
+      · rename_i hc; exact absurd hc.1.symm hno
+      · rfl
+    have hcore : ∀ x, (assignCore s h (some n)).evOf x = ((s.addref n).1.unref o).evOf x := by
+      intro x; unfold assignCore St.retain St.release; rw [hold]; rfl
+    have hu := fun x => unref_ev (s.addref n).1 o x (by rw [e0]; exact hoa) (by rw [addref_evlen, hevl]; exact hol)
+    have ha := fun x => addref_ev s n x han (by rw [hevl]; exact hnl)
+    have hb := (hI o).2.1
+    have hp := hrefs_pos s.hnd h o hold
+    have hc := count_of_inv s hI o
+    refine ⟨?_, ?_, ?_⟩
+    · rw [hcore, hu, if_neg hno, ha, if_pos rfl, hclean]
+    · rw [hcore, hu, if_pos rfl, ha, if_neg (Ne.symm hno), hclean, e0, lower_eq _ hb]
+      have h0 : ¬ (s.obj o).count = 0 := by omega
+      simp only [h0, ↓reduceIte, Bool.false_or]
+      congr 1
+      by_cases h1 : (s.obj o).count = 1
+      · simp [h1]
+      · have : ¬ (s.obj o).count - 1 = 0 := by omega
+        simp [h1, this]
+    · intro x hxn hxo
+      rw [hcore, hu, if_neg hxo, ha, if_neg hxn, hclean]
+
+-- h0 holds o0: assigning o1 calls addref(o1) once and unref(o0) once, and nothing else
+example : let s := (run exTwo [.take 0 0]).clearEv
+    (s.assignMeta 0 (some 1)).2 = .ok 8 ∧ (s.assignMeta 0 (some 1)).1.ev = [{ unref := 1 }, { add := 1 }] := by decide
 
 -- h0 holds o0, h1 holds o1 (one external reference each): assigning h1 to h0 moves one reference
 example : let s := run exTwo [.take 0 0, .take 1 1]
@@ -365,6 +488,62 @@ theorem assign_balanced_cxx (s : St) (h : Nat) (src : Option Nat) (hI : Inv s) (
     by_cases e1 : s.hnd.getD h none = some x <;> by_cases e2 : (if (s.retain src).2 then src else none) = some x <;>
       simp only [e1, e2, ↓reduceIte] at hs c1 ⊢ <;> omega
 
+theorem xstep_mono (nroot fuel : Nat) (s : St) (op : XOp) : Mono s (xstep nroot fuel s op) := by
+  cases op <;> simp only [xstep] <;> split <;> first
+    | exact Mono.refl s
+    | exact (assignRef_mono s _ _).trans (cascade_mono _ _ _)
+    | exact (moveRef_mono s _ _).trans (cascade_mono _ _ _)
+    | exact (drop_mono s _).trans (cascade_mono _ _ _)
+    | exact detachRef_mono s _
+    | exact (extUnref_mono s _).trans (cascade_mono _ _ _)
+
+theorem xrun_mono (nroot fuel : Nat) (ops : List XOp) (s : St) : Mono s (xrun nroot fuel s ops) := by
+  induction ops generalizing s with
+  | nil => exact Mono.refl s
+  | cons op ops ih => exact (xstep_mono nroot fuel s op).trans (ih _)
+
+/-- **never later, C++ handles**: after any history an object that had a reference and has none left is destroyed
+    (any fuel) … -/
+theorem never_later_cxx (nroot fuel : Nat) (ops : List XOp) (s : St) (o : Nat) (ho : o < s.objs.length)
+    (hp : 0 < (s.obj o).count) (hz : ((xrun nroot fuel s ops).obj o).count = 0) :
+    ((xrun nroot fuel s ops).obj o).alive = false :=
+  ((xrun_mono nroot fuel ops s).2 o ho).2 hp hz
+
+/-- … and **the cascade finishes**: with fuel for every object (the driver passes `objs.length + 1`), after every
+    operation no destroyed object still owns a handle that refers to something — so no object is kept alive by the
+    handle of a dead owner (`it = it->next` chains of any length are released completely) -/
+theorem cascade_settles (nroot fuel : Nat) (s : St) (op : XOp) (hf : s.objs.length ≤ fuel)
+    (hp : s.pendingOwner nroot = none) : (xstep nroot fuel s op).pendingOwner nroot = none := by
+  have fin : ∀ t : St, t.shape = s.shape → (t.cascade nroot fuel).pendingOwner nroot = none := by
+    intro t ht
+    apply cascade_complete
+    have := filled_le t nroot
+    simp only [St.shape, Prod.mk.injEq] at ht
+    omega
+  cases op <;> simp only [xstep] <;> split <;> first
+    | exact hp
+    | exact fin _ (assignRef_shape s _ _)
+    | exact fin _ (moveRef_shape s _ _)
+    | exact fin _ (drop_shape s _)
+    | exact detachRef_pending s nroot _ hp
+    | exact fin _ (extUnref_shape s _)
+
+theorem xstep_shape (nroot fuel : Nat) (s : St) (op : XOp) : (xstep nroot fuel s op).shape = s.shape := by
+  cases op <;> simp only [xstep] <;> split <;> first
+    | rfl
+    | (rw [cascade_shape]; first
+        | exact assignRef_shape _ _ _ | exact moveRef_shape _ _ _ | exact drop_shape _ _ | exact extUnref_shape _ _)
+    | exact detachRef_shape _ _
+
+theorem xrun_settles (nroot fuel : Nat) (ops : List XOp) (s : St) (hf : s.objs.length ≤ fuel)
+    (hp : s.pendingOwner nroot = none) : (xrun nroot fuel s ops).pendingOwner nroot = none := by
+  induction ops generalizing s with
+  | nil => exact hp
+  | cons op ops ih =>
+    have hsh : (xstep nroot fuel s op).objs.length = s.objs.length := by
+      have := xstep_shape nroot fuel s op; simp only [St.shape, Prod.mk.injEq] at this; exact this.1
+    exact ih _ (by rw [hsh]; exact hf) (cascade_settles nroot fuel s op hf hp)
+
 /-- example state: o0 -> o1 through the handle o0 owns (slot 3), only handle 0 holds o0 -/
 def exChain : St :=
   { objs := [{ kind := .hmeta, count := 1, alive := true, ext := 0 }, { kind := .hmeta, count := 1, alive := true, ext := 0 }],
@@ -374,6 +553,14 @@ def exChain : St :=
 example : let s := xstep 3 3 exChain (.assign 0 3)
     s.hnd = [some 1, none, none, none, none] ∧ (s.obj 0).alive = false ∧ (s.obj 1).alive = true ∧ (s.obj 1).count = 1 := by
   decide
+
+-- a chain o0 -> o1 -> o2 held by handle 0 only: dropping the handle destroys all three (fuel 3 = number of objects);
+-- with too little fuel (1) o2 would be kept alive by the handle of the dead o1 — excluded by `cascade_settles`
+example : let s : St := { objs := [{ kind := .hmeta, count := 1, alive := true, ext := 0 }, { kind := .hmeta, count := 1, alive := true, ext := 0 },
+                                     { kind := .hmeta, count := 1, alive := true, ext := 0 }],
+                          hnd := [some 0, none, none, some 1, some 2, none], ev := [{}, {}, {}] }
+    ((xstep 3 3 s (.drop 0)).objs.map (·.alive)) = [false, false, false] ∧ (xstep 3 3 s (.drop 0)).pendingOwner 3 = none ∧
+    ((xstep 3 1 s (.drop 0)).objs.map (·.alive)) = [false, false, true] := by decide
 
 /-! ### `unique_array<T>::reserve()` on shared buffers that refuse a private copy -/
 
